@@ -10,6 +10,7 @@ import polylib as PL
 import e2e
 import calc
 import streams
+import unitcorr
 
 ID = "C10"
 LEVEL = "proof"
@@ -316,6 +317,9 @@ def run(ctx):
         if exp is not None and i < ctx.n(250, 2000):
             semantic_check(e, failing, None)
     nsplit = split_check(ctx, failing, ctx.n(40, 400))
+    m1, n_aux = unitcorr.poly_aux(ctx, ctx.n(300, 2000))
+    m2, n_chain = unitcorr.rel_chain_fix(ctx, ctx.n(120, 1200), failing, "C10")
+    mism += m1 + m2
     if ctx.coq_ok:
         jobs = []
         shards = [cases[i:i + 250] for i in range(0, len(cases), 250)]
@@ -337,7 +341,8 @@ def run(ctx):
     stats = {"evaluations": len(cases) + nsplit, "distinct_nontrivial": distinct,
              "rule": "random relation expressions: leaves = identity over a random ordered variable list with one column replaced by analysis-shaped polynomials; "
                      "operators composition/sum/fixpoint/W-correction/L-correction, depth <= 3; non-trivial = distinct expression with at least one operator; plus split checks of statement sequences",
-             "samples": [repr(cases[0][0])[:400]], "top_operator_histogram": ops_hist, "raised_in_real_code": nexc, "split_checks": nsplit}
+             "samples": [repr(cases[0][0])[:400]], "top_operator_histogram": ops_hist, "raised_in_real_code": nexc, "split_checks": nsplit,
+             "poly_aux_cases": n_aux, "chain_fixpoint_cases": n_chain}
     return {"failing": failing, "corr_mismatch": mism, "stats": stats}
 
 
